@@ -9,7 +9,7 @@ SPEC = {'level': 'exploration',
  'stages': [{'kind': 'gen',
              'binary': 'vh_c58',
              'target': 'c58_unrequested',
-             'cases_quick': 1100,
+             'cases_quick': 1500,
              'cases_thorough': 24000,
              'min_cases_quick': 400,
              'floors': {'stored-at-boundary': 0.2, 'dropped-at-boundary': 0.2, 'dropped-too-far-ahead': 0.1, 'dropped-less-work': 0.1,
